@@ -83,6 +83,175 @@ theorem partSummaries_concat {O : Oracles} {q : AggStmt} (hwf : StmtWF q)
   simp only [partSummaries, hk₁, hk₂, hk, hS₁, hS₂, hS, Option.bind_some, Option.map_some, ht₁, ht₂, ht, h, h₁, h₂,
     and_self]
 
+/-! ### the deviation class of the whole follows from the classes of the parts -/
+
+theorem collect_map_isSome {α β : Type} {l : List α} {f : α → Option β} {r : List β} (h : collect (l.map f) = some r) :
+    ∀ x ∈ l, (f x).isSome = true := by
+  induction l generalizing r with
+  | nil => intro x hx; cases hx
+  | cons a rest ih =>
+    simp only [List.map_cons] at h
+    cases hf : f a with
+    | none => rw [hf] at h; simp [collect] at h
+    | some b =>
+      rw [hf] at h
+      obtain ⟨r', hr', _⟩ := collect_eq_some_cons h
+      intro x hx
+      rcases List.mem_cons.mp hx with rfl | hx
+      · rw [hf]; rfl
+      · exact ih hr' x hx
+
+/-- where the specification's table exists, every aggregate of the statement has its argument values on the rows of every
+group -/
+theorem arguments_of_table {O : Oracles} {q : AggStmt} (hwf : StmtWF q)
+    (hOI : ∀ kind ∈ slotKinds q, orderInsensitive kind = true) {envs : List Env} {t : List (List Value)}
+    (h : table O q envs = some t) {rows : List (List Value × Env)} (hr : keyedRows O q envs = some rows) :
+    ∀ r ∈ rows, ∀ kind ∈ slotKinds q, isKeyKind kind = false → (arguments O q kind (rowsOfKey r.1 rows)).isSome = true := by
+  obtain ⟨rows', S, hk, hex, hS, _⟩ := summaries_of_table hwf hOI h
+  rw [hr] at hk
+  cases hk
+  obtain ⟨_, hl, _⟩ := keyedG_lookup hS hex
+  intro r hrm kind hkind hnk
+  have hmem : r.1 ∈ distinctKeys (rows.map (·.1)) := (distinctKeys_mem_iff hex r.1).mpr (List.mem_map.mpr ⟨r, hrm, rfl⟩)
+  obtain ⟨he, hs⟩ := hl r.1 hmem
+  rw [he] at hs
+  cases hrow : summaryRow O q r.1 (rowsOfKey r.1 rows) with
+  | none => rw [hrow] at hs; cases hs
+  | some ss =>
+    unfold summaryRow at hrow
+    have hall := collect_map_isSome hrow
+    have hslot : ∃ s ∈ slotList q, s.2 = kind := by
+      simp only [slotKinds, List.mem_append, List.mem_map] at hkind
+      simp only [slotList, List.mem_append, List.mem_map]
+      rcases hkind with ⟨it, hit, rfl⟩ | ⟨p, hp, rfl⟩
+      · exact ⟨(true, it.kind), Or.inl ⟨it, hit, rfl⟩, rfl⟩
+      · exact ⟨(false, p.2), Or.inr ⟨p, hp, rfl⟩, rfl⟩
+    obtain ⟨s, hsm, rfl⟩ := hslot
+    have := hall s hsm
+    unfold slotSummary at this
+    simp only [hnk, Bool.and_false, Bool.false_eq_true, if_false] at this
+    cases ha : arguments O q s.2 (rowsOfKey r.1 rows) with
+    | none => rw [ha] at this; cases this
+    | some vs => rfl
+
+theorem isEmpty_append_eq {α : Type} (a b : List α) : (a ++ b).isEmpty = (a.isEmpty && b.isEmpty) := by
+  cases a <;> simp
+
+theorem createsEntry_append_left (k : AggKind) (v1 v2 : List Value) (h : createsEntry k v1 = true) :
+    createsEntry k (v1 ++ v2) = true := by
+  cases k with
+  | groupKey e c => simp [createsEntry] at h
+  | count c d =>
+    cases c <;> simp only [createsEntry, nonNull, List.filter_append, isEmpty_append_eq, Bool.not_and, Bool.or_eq_true] at h ⊢ <;>
+      exact Or.inl h
+  | _ =>
+    simp only [createsEntry, nonNull, List.filter_append, isEmpty_append_eq, Bool.not_and, Bool.or_eq_true] at h ⊢
+    exact Or.inl h
+
+theorem createsEntry_append_right (k : AggKind) (v1 v2 : List Value) (h : createsEntry k v2 = true) :
+    createsEntry k (v1 ++ v2) = true := by
+  cases k with
+  | groupKey e c => simp [createsEntry] at h
+  | count c d =>
+    cases c <;> simp only [createsEntry, nonNull, List.filter_append, isEmpty_append_eq, Bool.not_and, Bool.or_eq_true] at h ⊢ <;>
+      exact Or.inr h
+  | _ =>
+    simp only [createsEntry, nonNull, List.filter_append, isEmpty_append_eq, Bool.not_and, Bool.or_eq_true] at h ⊢
+    exact Or.inr h
+
+theorem createsEntry_not_key {k : AggKind} {vs : List Value} (h : createsEntry k vs = true) : isKeyKind k = false := by
+  cases k <;> first | rfl | simp [createsEntry] at h
+
+/-- a group that is visible (D10) in a part is visible in the whole, when the arguments of the whole group exist -/
+theorem groupVisible_append {O : Oracles} {q : AggStmt} (g1 g2 : List Env)
+    (hargs : ∀ kind ∈ slotKinds q, isKeyKind kind = false → (arguments O q kind (g1 ++ g2)).isSome = true)
+    (h : groupVisible O q g1 = true ∨ groupVisible O q g2 = true) : groupVisible O q (g1 ++ g2) = true := by
+  unfold groupVisible at h ⊢
+  simp only [List.any_eq_true] at h ⊢
+  have key : ∀ kind ∈ slotKinds q, ∀ vs, ((arguments O q kind g1 = some vs ∨ arguments O q kind g2 = some vs) ∧ createsEntry kind vs = true) →
+      (match arguments O q kind (g1 ++ g2) with
+        | some vs => createsEntry kind vs
+        | none => false) = true := by
+    intro kind hkind vs ⟨hor, hc⟩
+    have hs := hargs kind hkind (createsEntry_not_key hc)
+    cases hw : arguments O q kind (g1 ++ g2) with
+    | none => rw [hw] at hs; cases hs
+    | some ws =>
+      simp only
+      unfold arguments at hw
+      rw [List.map_append] at hw
+      obtain ⟨x, y, hx, hy, rfl⟩ := collect_append_inv hw
+      rcases hor with h1 | h2
+      · have : x = vs := Option.some.inj (hx.symm.trans h1)
+        subst this
+        exact createsEntry_append_left kind x y hc
+      · have : y = vs := Option.some.inj (hy.symm.trans h2)
+        subst this
+        exact createsEntry_append_right kind x y hc
+  rcases h with ⟨kind, hkind, h⟩ | ⟨kind, hkind, h⟩
+  · refine ⟨kind, hkind, ?_⟩
+    cases h1 : arguments O q kind g1 with
+    | none => rw [h1] at h; cases h
+    | some vs => rw [h1] at h; exact key kind hkind vs ⟨Or.inl h1, h⟩
+  · refine ⟨kind, hkind, ?_⟩
+    cases h2 : arguments O q kind g2 with
+    | none => rw [h2] at h; cases h
+    | some vs => rw [h2] at h; exact key kind hkind vs ⟨Or.inr h2, h⟩
+
+/-- an empty deviation class, taken apart: every group of the admitted rows is visible -/
+theorem visible_of_class_empty {O : Oracles} {q : AggStmt} {envs : List Env} {rows : List (List Value × Env)}
+    (hr : keyedRows O q envs = some rows) (hc : deviationClass O q envs = "") :
+    ∀ r ∈ rows, groupVisible O q (rowsOfKey r.1 rows) = true := by
+  unfold deviationClass at hc
+  simp only [hr] at hc
+  split at hc
+  · exact absurd hc (by decide)
+  · split at hc
+    · exact absurd hc (by decide)
+    · rename_i _ hv
+      have hv' : (groups rows).any (fun kg => !groupVisible O q kg.2) = false := by
+        simpa using hv
+      rw [groups_any_eq (fun g => !groupVisible O q g)] at hv'
+      intro r hrm
+      have := List.any_eq_false.mp hv' r hrm
+      simpa using this
+
+/-- **the deviation class (D10 / D15) of the whole is empty when the classes of both parts are** — for statements whose
+aggregates are order-insensitive, whenever the specification's table of the whole exists: a group of the whole has rows in
+some part, is visible there, and an aggregate that creates an entry for a part of a group creates one for the group -/
+theorem deviationClass_concat {O : Oracles} {q : AggStmt} (hwf : StmtWF q)
+    (hOI : ∀ kind ∈ slotKinds q, orderInsensitive kind = true) {e₁ e₂ : List Env} {t : List (List Value)}
+    (h : table O q (e₁ ++ e₂) = some t) {k₁ k₂ : List (List Value × Env)}
+    (hk₁ : keyedRows O q e₁ = some k₁) (hk₂ : keyedRows O q e₂ = some k₂)
+    (hc₁ : deviationClass O q e₁ = "") (hc₂ : deviationClass O q e₂ = "") : deviationClass O q (e₁ ++ e₂) = "" := by
+  have hk := keyedRows_append O q e₁ e₂ hk₁ hk₂
+  have hargs := arguments_of_table hwf hOI h hk
+  have hv₁ := visible_of_class_empty hk₁ hc₁
+  have hv₂ := visible_of_class_empty hk₂ hc₂
+  have hvis : ∀ r ∈ k₁ ++ k₂, groupVisible O q (rowsOfKey r.1 (k₁ ++ k₂)) = true := by
+    intro r hr
+    have ha := hargs r hr
+    rw [rowsOfKey_append] at ha ⊢
+    apply groupVisible_append _ _ ha
+    rcases List.mem_append.mp hr with h1 | h2
+    · exact Or.inl (hv₁ r h1)
+    · exact Or.inr (hv₂ r h2)
+  unfold deviationClass
+  simp only [hk]
+  have hA : (groups (k₁ ++ k₂)).any (fun (x : List Value × List Env) => match x with | (_, g) => arrayAggFirstNull O q g) = false := by
+    apply List.any_eq_false.mpr
+    intro kg _
+    simp [arrayAggFirstNull_false hOI]
+  have hV : (groups (k₁ ++ k₂)).any (fun (x : List Value × List Env) => match x with | (_, g) => !groupVisible O q g) = false := by
+    have := groups_any_eq (fun g => !groupVisible O q g) (k₁ ++ k₂)
+    rw [show (fun (x : List Value × List Env) => match x with | (_, g) => !groupVisible O q g) =
+      (fun kg => !groupVisible O q kg.2) from rfl, this]
+    apply List.any_eq_false.mpr
+    intro r hr
+    simp [hvis r hr]
+  rw [hA, hV]
+  rfl
+
 /-! ### the executed batch run -/
 
 /-- what a batch run of an aggregate statement that ends well hands back: the table printed once, every line counted -/
@@ -148,14 +317,34 @@ theorem specBatch_concat_merge_summaries {O : Oracles} {qy : Query} {q : AggStmt
   · rw [ha₂]
   · rw [ha, hlen]
 
+/-- **the class of the whole is not a hypothesis**: if the specification answers for `f`, and answers with an empty deviation
+class for the two parts, its class for `f` is empty as well (`deviationClass_concat`) -/
+theorem specBatch_concat_class {O : Oracles} {qy : Query} {q : AggStmt} (hwf : StmtWF q) (hj : qy.join = none)
+    (hOI : ∀ kind ∈ slotKinds q, orderInsensitive kind = true) (joined : List FileLine)
+    {f f₁ f₂ : List (List FileLine)} (hf : f.flatten = f₁.flatten ++ f₂.flatten) {ro ro₁ ro₂ : RunOut} {cls : String}
+    (h : Spec.Agg.batch O qy q joined f = some (ro, cls)) (h₁ : Spec.Agg.batch O qy q joined f₁ = some (ro₁, ""))
+    (h₂ : Spec.Agg.batch O qy q joined f₂ = some (ro₂, "")) : cls = "" := by
+  obtain ⟨t, ht, ha⟩ := batch_nojoin_inv hj h
+  obtain ⟨t₁, ht₁, ha₁⟩ := batch_nojoin_inv hj h₁
+  obtain ⟨t₂, ht₂, ha₂⟩ := batch_nojoin_inv hj h₂
+  obtain ⟨k₁, hk₁⟩ := keyedRows_of_table ht₁
+  obtain ⟨k₂, hk₂⟩ := keyedRows_of_table ht₂
+  have c : cls = deviationClass O q (envsOf qy.table f.flatten) := (Prod.mk.inj ha).2
+  have c₁ : deviationClass O q (envsOf qy.table f₁.flatten) = "" := (Prod.mk.inj ha₁).2.symm
+  have c₂ : deviationClass O q (envsOf qy.table f₂.flatten) = "" := (Prod.mk.inj ha₂).2.symm
+  rw [c, hf, envsOf_append]
+  rw [hf, envsOf_append] at ht
+  exact deviationClass_concat hwf hOI ht hk₁ hk₂ c₁ c₂
+
 /-- **the executed batch run over a split input** (`runBatch` = the `FileExecutor` loop the driver runs): under the
-hypotheses of `specBatch_concat_merge_summaries` with empty deviation classes (C04: D10 / D15), what `runBatch` prints for
+hypotheses of `specBatch_concat_merge_summaries` with empty deviation classes (C04: D10 / D15) for the two PARTS (the class
+of the whole is then empty too: `specBatch_concat_class`), what `runBatch` prints for
 the whole is the table of the merged summaries of the two parts, every line counted; and what it prints for each part is the
 table of that part's summaries -/
 theorem runBatch_concat_merge_summaries {O : Oracles} {qy : Query} {q : AggStmt} (hq : qy.stmt = .aggregate q) (hwf : StmtWF q)
     (hj : qy.join = none) (hOI : ∀ kind ∈ slotKinds q, orderInsensitive kind = true) (joined : List FileLine)
-    {f f₁ f₂ : List (List FileLine)} (hf : f.flatten = f₁.flatten ++ f₂.flatten) {ro ro₁ ro₂ : RunOut}
-    (h : Spec.Agg.batch O qy q joined f = some (ro, "")) (h₁ : Spec.Agg.batch O qy q joined f₁ = some (ro₁, ""))
+    {f f₁ f₂ : List (List FileLine)} (hf : f.flatten = f₁.flatten ++ f₂.flatten) {ro ro₁ ro₂ : RunOut} {cls : String}
+    (h : Spec.Agg.batch O qy q joined f = some (ro, cls)) (h₁ : Spec.Agg.batch O qy q joined f₁ = some (ro₁, ""))
     (h₂ : Spec.Agg.batch O qy q joined f₂ = some (ro₂, ""))
     (hsafe : ∀ k₁ k₂, keyedRows O q (envsOf qy.table f₁.flatten) = some k₁ → keyedRows O q (envsOf qy.table f₂.flatten) = some k₂ →
       ∀ k, SplitSafe O q (rowsOfKey k k₁) (rowsOfKey k k₂)) :
@@ -166,6 +355,8 @@ theorem runBatch_concat_merge_summaries {O : Oracles} {qy : Query} {q : AggStmt}
       runBatch O qy joined f₁ none = tableOut q t₁ f₁.flatten.length ∧
       runBatch O qy joined f₂ none = tableOut q t₂ f₂.flatten.length ∧
       runBatch O qy joined f none = tableOut q t (f₁.flatten.length + f₂.flatten.length) := by
+  have hcls := specBatch_concat_class hwf hj hOI joined hf h h₁ h₂
+  subst hcls
   obtain ⟨S₁, S₂, t₁, t₂, t, hS₁, hS₂, _, hT₁, hT₂, hT, _, _, _, e₁, e₂, e⟩ :=
     specBatch_concat_merge_summaries hwf hj hOI joined hf h h₁ h₂ hsafe
   refine ⟨S₁, S₂, t₁, t₂, t, hS₁, hS₂, hT₁, hT₂, hT, ?_, ?_, ?_⟩
